@@ -559,6 +559,66 @@ func discOps() []discOp {
 			return out
 		})
 	}
+	// every pair of operand kinds of Dense.Mul (each specialised branch draws and returns workspaces itself;
+	// a workspace returned before it has been copied out shows as poison under the scrubbing pool twin)
+	{
+		const n = 3
+		type kind struct {
+			name string
+			mk   func(seed int) mat.Matrix
+		}
+		tri := func(k mat.TriKind, seed int) *mat.TriDense {
+			a := mk(n, n, seed)
+			t := mat.NewTriDense(n, k, nil)
+			for i := 0; i < n; i++ {
+				for j := 0; j < n; j++ {
+					if (k == mat.Upper && j >= i) || (k == mat.Lower && j <= i) {
+						t.SetTri(i, j, a.At(i, j))
+					}
+				}
+			}
+			return t
+		}
+		kinds := []kind{
+			{"Dense", func(s int) mat.Matrix { return mk(n, n, s) }},
+			{"DenseT", func(s int) mat.Matrix { return mk(n, n, s).T() }},
+			{"View", func(s int) mat.Matrix { return mk(n+2, n+2, s).Slice(1, 1+n, 1, 1+n) }},
+			{"ViewT", func(s int) mat.Matrix { return mk(n+2, n+2, s).Slice(1, 1+n, 1, 1+n).T() }},
+			{"TriU", func(s int) mat.Matrix { return tri(mat.Upper, s) }},
+			{"TriL", func(s int) mat.Matrix { return tri(mat.Lower, s) }},
+			{"TriUT", func(s int) mat.Matrix { return tri(mat.Upper, s).T() }},
+			{"Sym", func(s int) mat.Matrix { return symOf("spd", n, s) }},
+			{"Diag", func(s int) mat.Matrix { return mat.NewDiagDense(n, []float64{float64(s%5 + 1), 2, -3}) }},
+			{"Band", func(s int) mat.Matrix {
+				b := mat.NewBandDense(n, n, 1, 1, nil)
+				a := mk(n, n, s)
+				for i := 0; i < n; i++ {
+					for j := max(0, i-1); j < min(n, i+2); j++ {
+						b.SetBand(i, j, a.At(i, j))
+					}
+				}
+				return b
+			}},
+			{"Vec", func(s int) mat.Matrix { return mat.NewVecDense(n, mk(n, 1, s).RawMatrix().Data) }},
+			{"basic", func(s int) mat.Matrix { return basic{mk(n, n, s)} }},
+		}
+		for _, ka := range kinds {
+			for _, kb := range kinds {
+				ka, kb := ka, kb
+				if ka.name == "Vec" {
+					continue // a 3x1 times 3x? is a shape error for every b but Vec-less kinds; covered by "panics"
+				}
+				add(fmt.Sprintf("Mul a=%s b=%s", ka.name, kb.name), func() []float64 {
+					a, b := ka.mk(81), kb.mk(82)
+					var p mat.Dense
+					p.Mul(a, b)
+					sized := mat.NewDense(n, p.RawMatrix().Cols, nil)
+					sized.Mul(a, b)
+					return dataOf(&p, sized)
+				})
+			}
+		}
+	}
 	// documented shape-mismatch panics must not leak or double-release workspaces either
 	add("panics", func() []float64 {
 		var out []float64
